@@ -245,6 +245,9 @@ func replayFrag(fsch *fragSched, version int) string {
 			} else {
 				in = []byte(fmt.Sprintf("?OTR|%08x|%08x,%05d,%05d,%s,", their, our, s.K, 3, piece("M", s.K)))
 			}
+		case "nested":
+			// the payload cannot contain the separator: a fragment prefix that is cut short
+			in = line(their, 1, 1, "?OTR|00")
 		case "errormsg":
 			in = []byte("?OTR Error: something went wrong")
 		case "query":
